@@ -82,7 +82,7 @@ theorem C02_desugar_method (cfg : Cfg) (n : Nat) (f : String) (plus : Bool) (vis
     run cfg (n + 1) (.eval (.object (.fieldFix f plus vis .none (.func ps b) rest)) env tail d) := by
   show step cfg (run cfg n) _ = step cfg (run cfg n) _
   unfold step
-  simp [membersList, memberLocals, memberAsserts, bindExpr]
+  simp [membersList, memberLocals, memberAsserts, bindExpr, objectMember]
 
 /-- `if c then a` means `if c then a else null`. -/
 theorem C02_desugar_if_without_else (cfg : Cfg) (n : Nat) (c a : Expr) (env : EId) (tail : Bool) (d : Nat) :
